@@ -129,7 +129,7 @@ def next_callee(crate, iter_ty):
             'res_kind': 'AssocFn', 'func': None, 'arg_tys': ['&mut ' + iter_ty]}
 
 
-OPTION_COMBINATORS = ('map', 'is_some_and', 'is_none_or', 'and_then', 'map_or', 'unwrap_or_else', 'unwrap_or', 'filter')
+OPTION_COMBINATORS = ('map', 'is_some_and', 'is_none_or', 'and_then', 'map_or', 'unwrap_or_else', 'unwrap_or', 'unwrap_or_default', 'filter')
 _OPT_RE = re.compile(r'^std::option::Option::<T>::(%s)$' % '|'.join(OPTION_COMBINATORS))
 
 
@@ -184,6 +184,12 @@ def lower_option(fn, crate, bi, comb):
     elif comb == 'unwrap_or_else':
         some['stmts'].append(B.assign(dest, ['use', ['move', P(X, xty)]]))
         fcall(none_, [], dest, target)
+    elif comb == 'unwrap_or_default':
+        some['stmts'].append(B.assign(dest, ['use', ['move', P(X, xty)]]))
+        dpath = '<%s as std::default::Default>::default' % xty
+        dc = {'callee': 'std::default::Default::default', 'resolved': dpath if dpath in crate.fns else 'std::default::Default::default',
+              'local': dpath in crate.fns, 'generics': [xty], 'res_kind': 'AssocFn', 'func': None, 'arg_tys': []}
+        none_['term'] = B.call(dc, [], dest, target)
     elif comb == 'unwrap_or':
         some['stmts'].append(B.assign(dest, ['use', ['move', P(X, xty)]]))
         none_['stmts'] = [B.assign(dest, ['use', ['move', P(extra[0][0], extra[0][1])]])]
